@@ -74,13 +74,22 @@ def neg(I, st, v):
     raise Unsupported("unary minus on %r" % (v,))
 
 
+def _sqrt_power(I, st, a):
+    """a ** 0.5: the square root for a >= 0; a NEGATIVE base gives a complex number in CPython (no exception, unlike
+    math.sqrt): outside the model"""
+    for st1, r in sqrt(I, st, a):
+        if isinstance(r, Exc):
+            raise Unsupported("negative base to the power 0.5 (complex result)")
+        yield st1, r
+
+
 def power(I, st, a, b):
     """a ** b, yields."""
     a, b = as_arith(a), as_arith(b)
     if not is_z3(a) and not is_z3(b):
         if isinstance(b, Fraction) and b.denominator != 1:
             if b == Fraction(1, 2):
-                yield from sqrt(I, st, a)
+                yield from _sqrt_power(I, st, a)
                 return
             yield from rational_power(I, st, a, b)
             return
@@ -99,7 +108,7 @@ def power(I, st, a, b):
         raise Unsupported("symbolic exponent")
     if isinstance(b, Fraction) and b.denominator != 1:
         if b == Fraction(1, 2):
-            yield from sqrt(I, st, a)
+            yield from _sqrt_power(I, st, a)
             return
         yield from rational_power(I, st, a, b)
         return
